@@ -187,11 +187,14 @@ async fn one_round(ctx: &Ctx, out: &mut Outcome, rng: &mut Rng, idx: u64, root: 
     };
     let wal_on = rng.chance(1, 2);
     let wal_dir = format!("{}/r{}", root, idx);
-    let tiny_buffer = rng.chance(1, 5);
-    let by_bytes = rng.chance(1, 4);
+    // a sixth of the rounds: one writer whose batches are exactly one flush each and are now and then sent again
+    // verbatim (a client re-sending its samples): two flushes with byte-identical content must both be stored
+    let resend = rng.chance(1, 6);
+    let tiny_buffer = !resend && rng.chance(1, 5);
+    let by_bytes = !resend && rng.chance(1, 4);
     let cfg = IngesterConfig {
         flush_interval: Duration::from_millis(*rng.pick(&[5u64, 20, 10_000])),
-        flush_row_count: if by_bytes { 1_000_000 } else { 2 + rng.usize(40) },
+        flush_row_count: if by_bytes { 1_000_000 } else if resend { 2 + rng.usize(4) } else { 2 + rng.usize(40) },
         flush_size_bytes: if by_bytes { 2_000 + rng.usize(20_000) } else { 1 << 30 },
         batch_timeout: Duration::from_millis(5),
         batch_size_bytes: 1 << 20,
@@ -199,6 +202,7 @@ async fn one_round(ctx: &Ctx, out: &mut Outcome, rng: &mut Rng, idx: u64, root: 
         max_buffer_size_bytes: if tiny_buffer { 1_500 + rng.usize(6_000) } else { 1 << 30 },
         wal: WalConfig { wal_dir: PathBuf::from(&wal_dir), max_segment_size: 1 << 16, sync_mode: WalSyncMode::None, enabled: wal_on },
     };
+    let cfg_flush_rows = cfg.flush_row_count;
     let cfg_desc = format!(
         "backend={} wal={} flush_rows={} flush_bytes={} interval={:?} max_buffer={}",
         if local_backend { "local" } else { "object-store" },
@@ -248,7 +252,8 @@ async fn one_round(ctx: &Ctx, out: &mut Outcome, rng: &mut Rng, idx: u64, root: 
     let timer = tokio::spawn(async move { ing_t.run_flush_timer().await });
 
     // writers
-    let nwriters = 1 + rng.usize(8);
+    let nwriters = if resend { 1 } else { 1 + rng.usize(8) };
+    let flush_rows_cfg = cfg_flush_rows;
     let mut next_id = (idx as i64) * 100_000;
     let base_ts: i64 = *rng.pick(&[0i64, 0, 1_700_000_000_000_000_000, 1_699_999_200_000_000_000, -86_400_000_000_000]);
     let accepted: Arc<Mutex<Vec<(SchemaKind, RowSpec)>>> = Arc::new(Mutex::new(vec![]));
@@ -263,7 +268,7 @@ async fn one_round(ctx: &Ctx, out: &mut Outcome, rng: &mut Rng, idx: u64, root: 
             let kind = *rng.pick(&[SchemaKind::A, SchemaKind::A, SchemaKind::B, SchemaKind::T]);
             schema_kinds.insert(format!("{:?}", kind));
             let big = rng.chance(1, 6);
-            let k = 1 + rng.usize(if big { 60 } else { 6 });
+            let k = if resend { flush_rows_cfg } else { 1 + rng.usize(if big { 60 } else { 6 }) };
             let rows: Vec<RowSpec> = (0..k)
                 .map(|_| {
                     next_id += 1;
@@ -285,7 +290,12 @@ async fn one_round(ctx: &Ctx, out: &mut Outcome, rng: &mut Rng, idx: u64, root: 
                     }
                 })
                 .collect();
-            plan.push((kind, rows, rng.below(3)));
+            plan.push((kind, rows.clone(), rng.below(3)));
+            if resend && rng.chance(1, 2) {
+                for _ in 0..1 + rng.usize(2) {
+                    plan.push((kind, rows.clone(), 0));
+                }
+            }
         }
         let ing = ing.clone();
         let accepted = accepted.clone();
@@ -380,17 +390,32 @@ async fn one_round(ctx: &Ctx, out: &mut Outcome, rng: &mut Rng, idx: u64, root: 
     out.count("rows_rejected", rej.len() as u64);
     let mut missing = vec![];
     let mut wrong = vec![];
+    let mut times_accepted: BTreeMap<i64, usize> = BTreeMap::new();
+    for (_, r) in &acc {
+        *times_accepted.entry(r.id).or_insert(0) += 1;
+    }
+    if resend {
+        out.count("rounds_with_batches_sent_again_verbatim", 1);
+    }
+    let mut judged_ids = std::collections::BTreeSet::new();
     for (kind, r) in &acc {
+        if !judged_ids.insert(r.id) {
+            continue;
+        }
+        let want_n = times_accepted[&r.id];
         let want = rows::ordered_rows(&[rows::make_batch(*kind, std::slice::from_ref(r))]).pop().unwrap();
         match stored.get(&r.id) {
             None => missing.push(r.id),
             Some(v) => {
-                if v.len() != 1 {
+                if v.len() > want_n {
                     out.violation(
                         "C06/row-stored-more-than-once",
-                        &format!("accepted row {} is stored {} times", r.id, v.len()),
+                        &format!("row {} was accepted {} time(s) and is stored {} times", r.id, want_n, v.len()),
                         witness_base.clone(),
                     );
+                }
+                if v.len() < want_n {
+                    missing.push(r.id);
                 }
                 if v[0] != want {
                     wrong.push(json!({"id": r.id, "written": want, "stored": v[0]}));
@@ -421,12 +446,20 @@ async fn one_round(ctx: &Ctx, out: &mut Outcome, rng: &mut Rng, idx: u64, root: 
         out.count("rounds_with_lag", 1);
     } else {
         for (name, seen) in [("legacy", legacy_seen.lock().clone()), ("topic", topic_seen.lock().clone())] {
+            let mut judged: Vec<&Vec<i64>> = vec![];
             for ids in &chunk_ids {
+                if judged.contains(&ids) {
+                    continue;
+                }
+                judged.push(ids);
+                // chunks are told apart by the rows they hold; chunks with the same rows (a batch sent again
+                // verbatim) are announced as often as there are such chunks
+                let registered = chunk_ids.iter().filter(|c| *c == ids).count();
                 let n = seen.iter().filter(|s| *s == ids).count();
-                if n != 1 {
+                if n != registered {
                     out.violation(
                         &format!("C06/{}-announcement-count", name),
-                        &format!("a flushed chunk of {} rows was announced {} times on the {} channel", ids.len(), n, name),
+                        &format!("{} registered chunk(s) of these {} rows, announced {} times on the {} channel", registered, ids.len(), n, name),
                         json!({"base": witness_base, "chunk_ids": ids.iter().take(10).collect::<Vec<_>>(), "announcements": seen.len(), "chunks": chunk_ids.len()}),
                     );
                 }
